@@ -110,6 +110,10 @@ def run(case, scratch, cache=False, writer=True, passes=('main', 'introspectable
     m = M()
     message, ast, utils = m['message'], m['ast'], m['utils']
     res = Result()
+    # the Transformer constructor creates a CacheStore (and its directory) even when the cache is
+    # disabled afterwards: keep that inside the scratch directory
+    if not cache or 'XDG_CACHE_HOME' not in os.environ:
+        os.environ['XDG_CACHE_HOME'] = os.path.join(scratch, 'xdg-cache')
     # reset module-level state of the code under test
     message.MessageLogger._instance = None
     utils._debugflags = None
